@@ -86,6 +86,7 @@ InertRule(e) ==
     /\ (e.method \notin InitMethods => (e.postlive = "false" /\ Same(e)))
     /\ (e.method \notin (AllowedNonZero \cup InitMethods) => e.nonzero = <<>>)
     /\ (e.method \notin (ErrAllowed \cup InitMethods) => e.errres = "false")
+    /\ (e.method \in {"Valid", "IsEqual"} => e.errres = "true")      \* these two REPORT that the receiver is not initialised, whatever the argument
     /\ e.health = "ok"
 
 \* Free zeroes the handle unless the instance is read-only (then: an error)
